@@ -172,6 +172,7 @@ func runCase(t *rapid.T, replay []op) {
 		s.Close()
 		t.Fatalf("violation (replay %s): %s", p, msg)
 	}
+	var cur sut.Digest        // dataset recorded after the last command (nil = not recorded)
 	var snapDigest sut.Digest // digest at the last successful snapshot (nil = none yet)
 	var snapTime int64
 	lastSnapMs := int64(-1)
@@ -188,7 +189,16 @@ func runCase(t *rapid.T, replay []op) {
 				continue // generator precondition: never two snapshots in one millisecond
 			}
 			trace = append(trace, o)
-			before := s.TakeDigest(dbs, keys)
+			// The dataset at the snapshot is the one recorded after the last command, minus the keys whose deadline
+			// has passed since. It is not read again here: a read would remove such keys, and the snapshot has to
+			// cope with keys that are past their deadline but still stored (half of the cases; the other half reads).
+			var before sut.Digest
+			if cur != nil && len(trace) > 0 && rapid.IntRange(0, 1).Draw(t, "blindsave") == 0 {
+				before = alive(cur, now)
+				rec.Class("SAVE without a preceding read")
+			} else {
+				before = s.TakeDigest(dbs, keys)
+			}
 			lsBefore := lastSave(s)
 			pmu.Lock()
 			want := returns + 1
@@ -243,6 +253,7 @@ func runCase(t *rapid.T, replay []op) {
 			if ls := lastSave(s); ls != snapTime {
 				fail("LASTSAVE after restore is %d, the restored snapshot was taken at %d", ls, snapTime)
 			}
+			cur = got
 			// the restored server is the new baseline: what was written after the last snapshot is gone
 		default:
 			trace = append(trace, o)
@@ -250,6 +261,7 @@ func runCase(t *rapid.T, replay []op) {
 			if r := s.Do(o.Cmd...); r.Panic != "" {
 				fail("%q panicked: %s", o.Cmd, strings.SplitN(r.Panic, "\n", 2)[0])
 			}
+			cur = s.TakeDigest(dbs, keys)
 		}
 	}
 	s.Close()
